@@ -276,6 +276,13 @@ func k8sProvSim(r *simcore.Run) {
 				api.put(n, classOf[n], k8sRules(n, versions[n]))
 				r.Logf("%s: %s moves to class %s (v%d)", what, n, classOf[n], versions[n])
 			}
+		case k == 6: // deleted and created anew under the same name (new UID, generation starts again at 1)
+			if _, ok := classOf[n]; ok {
+				api.del(n)
+				versions[n]++
+				api.put(n, classOf[n], k8sRules(n, versions[n]))
+				r.Logf("%s: %s deleted and recreated (v%d)", what, n, versions[n])
+			}
 		default:
 			r.Logf("%s: no change", what)
 		}
@@ -343,9 +350,10 @@ func k8sProvSim(r *simcore.Run) {
 		}
 		return true
 	}
-	// quiesce waits until the active sets equal the server's content (bounded liveness: 8 s of wall time)
+	// quiesce waits until the active sets equal the server's content (bounded liveness: 25 s of wall time; the reflector backs off
+	// exponentially from 0.8 s after consecutive watch failures, so at most two connection faults are injected per run)
 	quiesce := func(when string) bool {
-		deadline := time.Now().Add(8 * time.Second)
+		deadline := time.Now().Add(25 * time.Second)
 		for time.Now().Before(deadline) {
 			if r.Failed() {
 				return false
@@ -361,7 +369,7 @@ func k8sProvSim(r *simcore.Run) {
 			}
 			time.Sleep(20 * time.Millisecond)
 		}
-		r.Fail("no-convergence-after-faults-stopped", "kubernetes", "%s: 8 s after the last change the active rule sets are %v, the API server holds %v (processor log: %v)", when, actual(), expected(), tailK(rec.Log, 8))
+		r.Fail("no-convergence-after-faults-stopped", "kubernetes", "%s: 25 s after the last change the active rule sets are %v, the API server holds %v (processor log: %v)", when, actual(), expected(), tailK(rec.Log, 8))
 		return false
 	}
 	if !quiesce("after start") {
@@ -369,8 +377,16 @@ func k8sProvSim(r *simcore.Run) {
 	}
 	nSteps := 1 + s.Draw(5, "steps")
 	nontrivial := false
+	connFaults := 0
 	for step := 0; step < nSteps && !r.Failed(); step++ {
-		switch s.Draw(4, "step-kind") {
+		kind := s.Draw(4, "step-kind")
+		if kind != 0 {
+			connFaults++
+			if connFaults > 2 {
+				kind = 0
+			}
+		}
+		switch kind {
 		case 0: // changes over a healthy connection
 			for i := 0; i < 1+s.Draw(3, "changes"); i++ {
 				mutate(fmt.Sprintf("step %d", step))
